@@ -321,6 +321,9 @@ func (p *parser) selectStmt() (*rel, *int64, error) {
 			if err != nil {
 				return nil, nil, err
 			}
+			if src.tab.Cols[ci].Kind == KOpaque {
+				return nil, nil, fmt.Errorf("%w: ORDER BY on opaque column %s", ErrUnsupported, src.tab.Cols[ci].Name)
+			}
 			o := ord{idx: ci}
 			if p.acceptKw("DESC") {
 				o.desc = true
@@ -763,7 +766,8 @@ func cmp(a, c any) int {
 		}
 		return 1
 	}
-	panic(fmt.Sprintf("microsql: cmp on %T", a))
+	// values of a kind this evaluator does not order: treated as equal (callers reject opaque columns up front)
+	return 0
 }
 
 // NULLs sort as larger than any value (Postgres default: last in ASC, first in DESC).
